@@ -68,6 +68,30 @@ def gen(seed, tier):
                     segs.append(seg(0, [g.f_df17(icao, me)]))
                 cases.append(H("C05-e%d" % n, o, segs))
                 n += 1
+    # "any other payload bits": the other fields of the frame at their extremes -- CPR fields all zero / all ones, both
+    # parities, time bit, surveillance status -- for a spread of altitude codes, as first frame and as update
+    special = [(0, 0), (0x1FFFF, 0x1FFFF), (0, 0x1FFFF), (0x1FFFF, 0), (1, 1), (0, 1), (1, 0)]
+    for rep in range(2 if tier == "quick" else 12):
+        for tc in range(9, 19):
+            icao = r.choice(ICAOS)
+            o = {"U": 1} if r.random() < 0.5 else {}
+            segs = []
+            for la, lo in special:
+                c = r.choice([0x010, 0xFFF, 0xC38, r.getrandbits(12) | 0x10])
+                me = me_airborne_pos(tc, c, r.randint(0, 1), la, lo, r.choice([0, 3]), r.randint(0, 1), r.randint(0, 1))
+                segs.append(seg(0, [g.f_df17(icao, me)]))
+            cases.append(H("C05-p%d" % n, o, segs))
+            n += 1
+    for rep in range(4 if tier == "quick" else 40):
+        icao = r.choice(ICAOS)
+        o = {"U": 1} if rep % 2 else {}
+        segs = []
+        for hi in (0, 0x3FFF, 0x2AAA, 0x1555):
+            c = r.getrandbits(13) & ~0x40 | 0x10
+            segs.append(seg(0, [g.f_short(4, icao, (hi << 13) | c)]))
+            segs.append(seg(0, [g.f_long(20, icao, (hi << 13) | (r.getrandbits(13) & ~0x40 | 0x10), r.choice([0, (1 << 56) - 1]))]))
+        cases.append(H("C05-q%d" % n, o, segs))
+        n += 1
     return cases
 
 
